@@ -65,10 +65,11 @@ macro_rules! impl_ops_for_type {
         impl Div<$type> for Duration {
             type Output = Duration;
             fn div(self, q: $type) -> Self::Output {
-                Duration::from_total_nanoseconds(
-                    self.total_nanoseconds()
-                        .saturating_div((q * Unit::Nanosecond).total_nanoseconds()),
-                )
+                // The divisor in nanoseconds is read from its parts, which is exact for either sign.
+                let (centuries, nanoseconds) = (q * Unit::Nanosecond).to_parts();
+                let divisor = i128::from(centuries) * i128::from(NANOSECONDS_PER_CENTURY)
+                    + i128::from(nanoseconds);
+                Duration::from_total_nanoseconds(self.total_nanoseconds().saturating_div(divisor))
             }
         }
 
@@ -92,10 +93,8 @@ impl_ops_for_type!(i64);
 impl Mul<i64> for Duration {
     type Output = Duration;
     fn mul(self, q: i64) -> Self::Output {
-        Duration::from_total_nanoseconds(
-            self.total_nanoseconds()
-                .saturating_mul((q * Unit::Nanosecond).total_nanoseconds()),
-        )
+        // The factor is a plain integer: it needs no detour through a duration of `q` nanoseconds.
+        Duration::from_total_nanoseconds(self.total_nanoseconds().saturating_mul(i128::from(q)))
     }
 }
 
